@@ -479,6 +479,39 @@ fn gen_c09(tier: &str, rng: &mut Rng, emit: &mut dyn FnMut(Op)) {
 
 pub fn gen(id: &str, tier: &str, rng: &mut Rng, emit: &mut dyn FnMut(Op)) {
     match id {
+        "C17" => {
+            // mutations of every other generator's ops (and the ops themselves, sampled)
+            let mut pool: Vec<Op> = vec![];
+            for pid in ["C07", "C08", "C09"] {
+                let mut sub = Rng::new(rng.next());
+                let mut n = 0usize;
+                gen(pid, "quick", &mut sub, &mut |op: Op| {
+                    n += 1;
+                    if n % 7 == 0 || pool.len() < 400 {
+                        pool.push(op);
+                    }
+                });
+            }
+            // files are exercised by their own properties; C17 is about parsers and matchers
+            pool.retain(|o| !matches!(o.name.as_str(), "distinfo.verify" | "pkgdb.iter"));
+            let n = if tier == "thorough" { 60000 } else { 4000 };
+            fuzz(&pool, n, rng, emit);
+            // random Summary call sequences (all setters, pushers, then every getter)
+            for _ in 0..(if tier == "thorough" { 5000 } else { 400 }) {
+                let k = rng.range(0, 40);
+                let mut calls: Vec<Vec<u8>> = vec![];
+                for _ in 0..k {
+                    let var = rng.below(23);
+                    let v = rand_val(rng, var);
+                    if KINDS[var] == 2 && rng.chance(1, 2) {
+                        calls.push(call_push(var, &str_value(rng)));
+                    } else {
+                        calls.push(call_set(var, &v));
+                    }
+                }
+                emit_ops(emit, &calls);
+            }
+        }
         "C07" => gen_c07(tier, rng, emit),
         "C08" => gen_c08(tier, rng, emit),
         "C09" => gen_c09(tier, rng, emit),
